@@ -23,7 +23,7 @@ HERE = os.path.dirname(os.path.abspath(__file__))
 sys.path.insert(0, HERE)
 sys.path.insert(0, os.path.join(HERE, 'probes'))
 import common  # noqa  (puts $VERIF_REPO first on sys.path)
-from common import fhex, write_json, seed, tier, LEAN_DIR, Stats  # noqa
+from common import fhex, write_json, seed, tier, scale, LEAN_DIR, Stats  # noqa
 import C18 as W  # noqa  environment + generator + abstract operations (shared with the probe)
 import random  # noqa
 
@@ -255,7 +255,7 @@ def main():
     a = ap.parse_args()
     rng = random.Random(f'{seed()}:corr_sinex')
     stats = Stats()
-    nfiles = 30 if tier() == "quick" else 1500
+    nfiles = 30 * scale() if tier() == "quick" else 1500
     t0 = time.time()
     cases = gen_cases(rng, nfiles, stats)
     nproc = min(16, os.cpu_count() or 1)
